@@ -5,6 +5,7 @@ func init() {
 		ID:    "C13",
 		Title: "Errors name the line (and file) of the offending construct",
 		Rules: []string{
+			"R-SHARED (load history): nothing a load writes is read by a later load, except the configuration",
 			"R-ERRLINE (first error kept): every store into the parser's error list is an append to that list",
 			"R-EVALERR (same object): on the isError side of every recursive Eval the error object itself is returned, not a new error built at another node",
 			"R-LOOP (evaluator state): no field of an existing Evaluator is written while evaluating (a remembered \"current node\" is overwritten by nested evaluations)",
@@ -23,6 +24,10 @@ func init() {
 		NotDecided:  "TODO",
 		Assumptions: trustedBase,
 		Run: func(m *Model, s *Sink) {
+			m.RunSharedWrites(s, "R-SHARED", m.Roots().Load, "history", map[string]string{
+				"textwire.userConfig":    "NewTemplate/Configure install the caller's configuration (documented, sticky by design)",
+				"textwire.usesTemplates": "NewTemplate switches the package to template mode",
+			}) // lines are counted in the file as it is when it is loaded: no text kept from an earlier load
 			m.errPassStrict = true
 			m.RunEvalErr(s, "R-EVALERR") // the error of a failing sub-evaluation is handed up as it is: it keeps the line of the construct that failed
 			m.errPassStrict = false
